@@ -9,7 +9,7 @@ string error_handler (mapping m, int caught) {
   if (!stringp(e)) e = "?";
   n = strlen(e);
   while (n > 0 && e[n-1] == '\n') n--;
-  e = e[0..n-1];
+  e = n > 0 ? e[0..n-1] : "";
   VL((caught ? "caught " : "err ") + (n > 100 ? e[0..99] : e) + " len=" + n);
   return "";
 }
